@@ -7,6 +7,14 @@ claim("C12", "MIR mask constant-folding + path-valuation dominance + who-may-wri
       "the behaviour on concrete compressed data is not executed.",
       "gzip/base64 round trip on concrete lists; minimum size of decoded lists.", "DESIGN.md §7 C12")
 
+claim("C11", "HIR structural-dominance guard inventory + decision-table extraction + field-coverage + spec-table agreement",
+      "Decides for all header contents: validate_jws_headers is the conjunction of the disjointness, crit and b64 validators applied to (protected, unprotected) and "
+      "every encoder constructor and the decoder can only succeed after it succeeded; validate_crit's five rejections are present with the right polarity and "
+      "outcome and its tables reject every RFC 7515/7516/7518 registered name and permit only implemented extensions; validate_b64's table (incl. the composition that "
+      "makes its catch-all row unreachable); is_disjoint/has cover every header field (from the struct definition and serde names); add_recipient's b64 equality "
+      "dominates success; verify() requires a protected header with alg; JSON containers deny unknown fields. The statement is a decision table; the rules extract it from the code.",
+      "serde's handling of duplicate member names inside one JSON header object.", "DESIGN.md §7 C11")
+
 for _p, _r in {
     "C01": "rules not yet implemented in this revision (planned, DESIGN §7)", "C02": "rules not yet implemented in this revision",
     "C03": "rules not yet implemented in this revision", "C04": "rules not yet implemented in this revision",
